@@ -12,6 +12,7 @@ import (
 	"path/filepath"
 	"reflect"
 	"runtime"
+	"runtime/debug"
 	"sort"
 	"sync"
 
@@ -199,6 +200,7 @@ func runDictIter(walksPath, dictsPath, dir, outPath string) {
 		wg.Add(1)
 		sem <- struct{}{}
 		go func(jb job) {
+			debug.SetPanicOnFault(true)
 			defer wg.Done()
 			defer func() { <-sem }()
 			var ld []diDiff
